@@ -80,6 +80,10 @@ def cases(rng, tier):
                         drops=rng.random() < 0.2, slow=rng.choice([0.005, 0.03, 0.2]), eager=True))
     out += c18_observer.obs_cases(rng, tier)
     out += err_cases(rng, tier)
+    # long Deferred-mode sessions: many get_message() calls on one wormhole, waiting and served from a backlog
+    for nlong, pre, lag in ([(5, True, 0), (40, True, 0), (40, False, 5), (130, True, 9)] if tier == "quick" else
+                            [(5, True, 0), (20, False, 0), (40, True, 0), (40, False, 5), (130, True, 9), (300, False, 40), (700, True, 3)]):
+        out.append(dict(kind="longread", n=nlong, pre=pre, lag=lag, burst=3 + nlong % 3))
     return out
 
 
@@ -602,7 +606,52 @@ EXTRA_TARGETS = ["wvsearch"]
 evidence_extra = mc.cert_stats
 
 
+def run_longread(case):
+    """A LONG Deferred-mode session, scripted: the peer sends `n` distinct messages; the application reads them with
+    get_message() in a fixed pattern of reads issued BEFORE the data is there (waiting Deferreds) and reads issued AFTER
+    (served from the backlog), `n` + 3 reads in all; then both close.  Every message is one event: handed to the
+    application at most once, in both API styles, however long the backlog of get_message() has been running."""
+    n, k = case["n"], max(1, case.get("burst", 3))
+    viol = []
+    with World(seed=case.get("seed", 0)) as W:
+        a = W.add_client(delegated=True)
+        b = W.add_client(delegated=False)
+        code = "7-crossover-clockwork"
+        W.do(["open", 0]); W.do(["open", 1])
+        W.do(["api", 0, "set_code", code]); W.do(["api", 1, "set_code", code])
+        W.settle()
+        reads = 0
+        for i in range(n):
+            if case.get("pre") and i % (2 * k) == 0:
+                for _ in range(k):              # reads that wait
+                    W.do(["api", 1, "get_message"]); reads += 1
+            W.do(["api", 0, "send", "%04x" % i])
+            W.do(["api", 1, "send", "ee%04x" % i])
+            if i % k == k - 1:
+                W.settle()
+                while reads < i + 1 and (not case.get("lag") or reads + case["lag"] < i + 1):
+                    W.do(["api", 1, "get_message"]); reads += 1     # reads served from the backlog
+                W.settle()
+        W.settle()
+        while reads < n + 3:
+            W.do(["api", 1, "get_message"]); reads += 1
+        W.settle()
+        W.do(["api", 0, "close"]); W.do(["api", 1, "close"])
+        W.settle()
+        viol += check_events(a.events, "delegated", True, unique_msgs=True)
+        viol += check_events([(nm, v) for nm, v in b.events if not nm.endswith("!")], "deferred", True, unique_msgs=True)
+        got = [v for nm, v in b.events if nm == "message"]
+        if len(got) > n:
+            viol.append(("event-twice:message", f"deferred: the peer sent {n} messages, get_message() handed over {len(got)}"))
+        for c in (a, b):
+            for ent in c.internal:
+                viol.append(("internal:" + ent[0], f"internal failure {ent}"))
+    return Result([], [], viol, ["longread:n=%d" % n, "longread:" + ("pre" if case.get("pre") else "post")], True)
+
+
 def run_case(case):
+    if case.get("kind") == "longread":
+        return run_longread(case)
     if case.get("kind") == "trace":
         return mc.run_trace_case(case, trace_oracle_fifo if case.get("fifo") else trace_oracle)
     if case.get("kind") == "obs":
